@@ -57,7 +57,7 @@ def generate(rng, tier):
             s = rng.choice(recs)[0] if recs and rng.random() < 0.85 else gen.rand_segment(rng, regime, span=8)
             cases.append({"k": "newtrack", "regime": regime, "recs": recs, "s": s,
                           "cand": rng.choice([None, "0", "1", "x", 0, "fresh", "A", ""]),
-                          "prefix": rng.choice([None, None, "T", ""])})
+                          "prefix": rng.choice([None, None, "T", ""] if rng.random() < 0.85 else ["%", "%%", "100%", "%s", "T%d", "a b", "{}"])})
         for _ in range(n):
             g = rng.choice([["string"], ["int"], ["list", [rng.choice(["g%d" % i, 100 + i]) for i in range(14)]]])
             cases.append({"k": "toann", "regime": regime, "segs": gen.rand_timeline(rng, regime), "gen": g})
